@@ -279,6 +279,16 @@ func (m *multi) returnResults(msg proto.Message, err error) {
 		}
 	}()
 
+	// Once a call has been given its result it belongs to its caller
+	// again, who may modify it (SetRegion for a retry): take what's needed
+	// from the calls before delivering anything.
+	callRegions := make([]hrpc.RegionInfo, len(m.calls))
+	for j, c := range m.calls {
+		if c != nil {
+			callRegions[j] = c.Region()
+		}
+	}
+
 	// Here we can assume that everything has been deserialized correctly.
 	// Dispatch results to appropriate calls.
 	for i, rar := range mr.GetRegionActionResult() {
@@ -292,11 +302,11 @@ func (m *multi) returnResults(msg proto.Message, err error) {
 			reg := m.regions[i]
 
 			err := exceptionToError(*e.Name, string(e.Value))
-			for _, c := range m.calls {
+			for j, c := range m.calls {
 				if c == nil {
 					continue
 				}
-				if c.Region() == reg {
+				if callRegions[j] == reg {
 					deliver(c, hrpc.RPCResult{Error: err})
 				}
 			}
